@@ -293,6 +293,26 @@ class AtLeast(puan.Proposition):
             )
         )
 
+    def _propositions_all(self) -> typing.List[puan.Proposition]:
+
+        """
+            Returns this proposition and all its sub propositions (recursively)
+            without removing duplicates.
+
+            Returns
+            -------
+                out : List[puan.Proposition]
+        """
+        return list(
+            itertools.chain(
+                [self],
+                *map(
+                    lambda x: [x] if issubclass(x.__class__, puan.variable) else x._propositions_all(),
+                    self.propositions,
+                )
+            )
+        )
+
     def _dependencies(self) -> typing.List[typing.Tuple[puan.variable, typing.List[puan.variable]]]:
 
         """
@@ -405,7 +425,7 @@ class AtLeast(puan.Proposition):
                             maz.compose(
                                 len,
                                 set,
-                                functools.partial(map, hash),
+                                functools.partial(map, lambda x: (x.id, x.bounds.as_tuple())),
                                 itertools.chain.from_iterable,
                                 maz.fnmap(
                                     functools.partial(
@@ -429,7 +449,7 @@ class AtLeast(puan.Proposition):
                                         )
                                     )
                                 ),
-                                operator.methodcaller("flatten")
+                                operator.methodcaller("_propositions_all")
                             ),
                             maz.compose(
                                 len,
@@ -438,7 +458,7 @@ class AtLeast(puan.Proposition):
                                     map, 
                                     operator.attrgetter("id")
                                 ),
-                                operator.methodcaller("flatten")
+                                operator.methodcaller("_propositions_all")
                             ),
                         )
                     ),
@@ -453,7 +473,7 @@ class AtLeast(puan.Proposition):
                             operator.eq,   
                         ),
                         maz.fnmap(
-                            maz.compose(len, set, functools.partial(map, hash)),
+                            maz.compose(len, set, functools.partial(map, lambda x: (x.id, x.bounds.as_tuple(), int(x.sign), x.value, tuple(map(operator.attrgetter("id"), x.propositions))))),
                             maz.compose(len, set, functools.partial(map, operator.attrgetter("id")))
                         ),
                         list,
@@ -461,7 +481,7 @@ class AtLeast(puan.Proposition):
                             filter,
                             lambda x: not issubclass(x.__class__, puan.variable),
                         ),
-                        operator.methodcaller("flatten")
+                        operator.methodcaller("_propositions_all")
                     ),
 
 
